@@ -47,18 +47,14 @@ Definition lookup_spec (dflt : option V) (m : smap K V) (k : K) : eres V :=
   | None, None => EExn KeyError
   end.
 
-(* Operations of the defaulting variant that the refinement does NOT cover (they are the findings
-   C13-F1/F2 and the documented reading of get/setdefault): lower(); get-with-default, setdefault and
-   pop-with-default of an ABSENT key.  For the plain and the ordered class every operation is covered. *)
+(* The one operation of the defaulting variant that the refinement does NOT cover (finding C13-F4):
+   setdefault of an ABSENT key.  For the plain and the ordered class every operation is covered. *)
 Definition op_ok (dflt : option V) (m : smap K V) (o : op K V) : bool :=
   match dflt with
   | None => true
   | Some _ =>
     match o with
-    | OLower => false
-    | OGetD k _ => sm_has K V keqb lower m k
     | OSetdefault k _ => sm_has K V keqb lower m k
-    | OPop k (Some _) => sm_has K V keqb lower m k
     | _ => true
     end
   end.
